@@ -65,6 +65,17 @@ fn all_prog(k: usize) -> Cmd {
     serde_json::from_value(json!({"k":"all","id":1,"tid":2,"cs":cs})).unwrap()
 }
 
+/// one command, k sibling tasks (ctx.spawn), each a request followed by an event: the flat shape
+/// CruxMT's "all" scenario models (Command::all nests one command per member instead)
+fn flat_prog(k: usize) -> Cmd {
+    let code: Vec<Value> = (0..k)
+        .map(|i| json!({"op":"spawn","h": 1 + (i % 3),"script":{"tid": 3 + i,"code":[
+            {"op":"req","tag": 1 + 2 * i,"src":{"c":1},"dst":1},
+            {"op":"emit","tag": 2 + 2 * i,"src":{"r":1}}]}}))
+        .collect();
+    serde_json::from_value(json!({"k":"async","id":1,"tid":2,"code":code})).unwrap()
+}
+
 fn log_json(v: &ViewModel) -> Vec<Value> {
     v.log
         .iter()
@@ -207,6 +218,7 @@ fn table_for_k(scn: &str, k: usize) -> Table {
         progs: vec![match scn {
             "stream_bridge" => stream_prog(),
             "all_core" => all_prog(k),
+            "flat_core" => flat_prog(k),
             _ => join_prog(),
         }],
         follow: Default::default(),
@@ -314,7 +326,7 @@ fn run_stream_bridge(case: &MtCase, controlled: bool) -> Value {
 }
 
 fn run_join_core(case: &MtCase, controlled: bool) -> Value {
-    let is_all = case.scenario == "all_core";
+    let is_all = case.scenario == "all_core" || case.scenario == "flat_core";
     let k = if is_all { case.threads.max(2) } else { case.threads.min(3).max(2) };
     let _ctx = install_case(table_for_k(&case.scenario, k));
     let core = Arc::new(Core::<VApp>::new());
@@ -390,7 +402,7 @@ fn run_join_core(case: &MtCase, controlled: bool) -> Value {
 pub fn run_mt(case: &MtCase, controlled: bool) -> Value {
     match case.scenario.as_str() {
         "stream_bridge" => run_stream_bridge(case, controlled),
-        "join_core" | "all_core" => run_join_core(case, controlled),
+        "join_core" | "all_core" | "flat_core" => run_join_core(case, controlled),
         other => panic!("unknown scenario {other}"),
     }
 }
@@ -472,7 +484,7 @@ fn stress_stream(k: usize, it: usize) -> Value {
 }
 
 fn stress_core(scenario: &str, k: usize, it: usize) -> Value {
-    let k = if scenario == "all_core" { k.max(2) } else { k.min(3).max(2) };
+    let k = if scenario == "all_core" || scenario == "flat_core" { k.max(2) } else { k.min(3).max(2) };
     let _ctx = install_case(table_for_k(scenario, k));
     let core = Core::<VApp>::new();
     let effs = core.process_event(Event::Run(0));
